@@ -204,6 +204,9 @@ func GenGenuine(r *rand.Rand, w *World, o GenOpts) *Genuine {
 			if r.IntN(4) == 0 {
 				a.Authn.SessionIndex = nil
 			}
+			if r.IntN(6) == 0 {
+				a.Authn.AuthnInstant = nil // optional as far as the decoder is concerned; then there is none to report
+			}
 		}
 	}
 	// signing
